@@ -20,6 +20,28 @@ def query_after(chart, i, kind, e, status):
         chart.current_state()
 
 
+def other_decorator_build(c):
+    """state functions wrapped by a decorator that is NOT spy_on but written with functools.wraps (logging, timing, …)"""
+    import functools
+
+    def build(log, spied=False, counter=None, **kw):
+        fns = c.build(log, spied=False, counter=counter, **kw)
+        wrapped = {}
+
+        def deco(fn):
+            @functools.wraps(fn)
+            def inner(chart, e):
+                return fn(chart, e)
+            return inner
+        # transitions inside the handlers refer to `fns[...]`: replace the entries in place so that they reach the wrappers
+        for i in list(fns):
+            wrapped[i] = deco(fns[i])
+        for i in wrapped:
+            fns[i] = wrapped[i]
+        return fns
+    return build
+
+
 def run_config(c, start, evs, host, spied, live_spy=False, live_trace=False, builder=None, query=False):
     """returns (list of per-event visible call lists, final state id, error)"""
     log = []
@@ -134,6 +156,16 @@ def explore(run, n_random, with_active=True):
                                     % (host, "spied" if spied else "un-spied", ls, lt, flat(steps)[:30], final, err,
                                        flat(ref_steps)[:30], ref_final, ref_err),
                                     dict(cj, host=host, spied=spied, live_spy=ls, live_trace=lt))
+        # un-spied handlers under some other functools.wraps decorator: still "not spied" for every host
+        for host in hosts[:3]:
+            steps, final, err = run_config(c, start, evs, host, False, builder=other_decorator_build(c))
+            run.traces_validated += 1
+            run.count("host=%s other decorator" % host)
+            if not (flat(steps) == flat(ref_steps) and final == ref_final and err == ref_err):
+                run.violate("C18/behaviour-differs/%s/other-decorator" % host,
+                            "host %s, handlers wrapped by a functools.wraps decorator that is not spy_on: actions %s (final %s, %s) differ from "
+                            "the plain processor's %s (final %s, %s)" % (host, flat(steps)[:30], final, err, flat(ref_steps)[:30], ref_final, ref_err),
+                            dict(cj, host=host, other_decorator=True))
         run.case(cj, nontrivial=len(evs) >= 1)
 
 
